@@ -1793,7 +1793,14 @@ func (c *codegen) Visit(node ast.Node) ast.Visitor {
 		c.currentFor = label
 		c.currentSwitch = label
 
-		ast.Walk(c, n.X)
+		if v, ok := n.Value.(*ast.Ident); n.Value != nil && !(ok && v.Name == "_") {
+			// With a value variable the loop works on a copy of an array
+			// (not of a slice or of a pointer to an array): what the body
+			// writes to the array does not change the values produced.
+			c.walkValue(n.X)
+		} else {
+			ast.Walk(c, n.X)
+		}
 
 		// Implementation is a bit different for integers, slices and maps:
 		// For integers, we iterate through indices from 0 to len-1, storing integer and index on stack.
